@@ -758,6 +758,37 @@ def div_axioms(*formulas):
     return ax
 
 
+def mul_axioms(*formulas):
+    """Monotonicity of multiplication by a positive integer, instantiated for every pair of products x*b, y*b (b a non-numeral
+    Int term) occurring in the formulas:  b > 0 /\\ x <= y => x*b <= y*b  and  b > 0 /\\ x < y => x*b + b <= y*b.
+    Valid facts of integer arithmetic; opt-in (prove(..., nia=True)) because they only help nonlinear integer lemmas."""
+    seen, prods, stack = set(), {}, [z3.simplify(f) for f in formulas]
+    while stack:
+        t = stack.pop()
+        if t.get_id() in seen:
+            continue
+        seen.add(t.get_id())
+        if z3.is_quantifier(t):
+            continue
+        if z3.is_app(t) and t.decl().kind() == z3.Z3_OP_MUL and t.num_args() == 2 and t.sort() == z3.IntSort():
+            a, b = t.children()
+            if not z3.is_int_value(a) and not z3.is_int_value(b):
+                prods[(a.get_id(), b.get_id())] = (a, b)
+                prods[(b.get_id(), a.get_id())] = (b, a)
+        stack.extend(t.children())
+    items = list(prods.values())
+    if len(items) > 60:
+        return []
+    ax = []
+    for i, (a1, b1) in enumerate(items):
+        for a2, b2 in items[i + 1:]:
+            if b1.get_id() == b2.get_id() and a1.get_id() != a2.get_id():
+                for x, y in ((a1, a2), (a2, a1)):
+                    ax.append(z3.Implies(z3.And(b1 > 0, x <= y), x * b1 <= y * b1))
+                    ax.append(z3.Implies(z3.And(b1 > 0, x < y), x * b1 + b1 <= y * b1))
+    return ax
+
+
 def pow_axioms(*formulas):
     """x ** (1/2) is sqrt(x): instance for every pow(b, e) application in the formulas (e may be symbolic)."""
     seen, apps, stack = set(), {}, [z3.simplify(f) for f in formulas]
